@@ -47,7 +47,8 @@ pub fn gen(tier: &str, r: &mut Rng, emit: &mut dyn FnMut(Vec<u64>)) {
     for &a in grid.iter() { for &b in grid.iter() { for c in (0..256u64).step_by(if thorough { 1 } else { 5 }) { emit(vec![1, 3, a, b, c]); } } }
     for _ in 0..2000 { let l = 4 + r.below(2) as usize; let mut b = r.bytes(l); if r.chance(1, 2) { b[0] = 0; } let mut v = vec![1]; wr_bytes(&mut v, &b); emit(v); }
     // new
-    let mut nums: Vec<u64> = (0..=4097).step_by(if thorough { 1 } else { 64 }).collect();
+    let mut nums: Vec<u64> = (0..=4097).step_by(if thorough { 16 } else { 64 }).collect();
+    if thorough { nums.extend(0..300); }
     nums.extend([1, 4095, 4096, 4097, 65535, 65536, 65537, u64::MAX, 1 << 32]);
     let mut sizes: Vec<u64> = (0..=8200).collect();
     for k in 0..64u32 { let p = 1u64 << k; sizes.extend([p.wrapping_sub(1), p, p.wrapping_add(1)]); }
